@@ -2,7 +2,7 @@
 import json
 import random
 
-from vlib import Broken, Verdict, read_ndjson, write_ndjson, require_coverage
+from vlib import unreproduced as vlib_unreproduced, Broken, Verdict, read_ndjson, write_ndjson, require_coverage
 
 TRACE_CFG = "SPECIFICATION Spec\nCHECK_DEADLOCK TRUE\n"
 ACTIONS = ["DataFrame", "EmptyFrame", "InfoFrame", "ErrorFrame", "EndOfStream", "Recv"]
@@ -84,8 +84,7 @@ def check(w):
         byid = {s["id"]: s for s in scen}
         obs2, _ = run(w, [byid[i] for i in sorted(rej)], "confirm")
         rej2, _, _ = validate(w, obs2, "confirm")
-        if set(rej) - set(rej2):
-            raise Broken("rejections not reproduced on re-run: %s" % sorted(set(rej) - set(rej2))[:8])
+        vlib_unreproduced(v, rej, rej2)
         for o in obs2:
             if o["id"] in rej2:
                 what = "server-frames-malformed" if not (o["parsed"] and o["maxlen"] <= 262144) else ("injected-error-lost" if o["injerr"] else ("spurious-failure" if o["result"] != "ok" else "different-result"))
